@@ -317,11 +317,18 @@ def uc_model(case):
 
 def check_uc(case, rec):
     from biom.parse import parse_uc
-    from biom.cli.uc_processor import _from_uc, from_uc
+    from ..cli import command
+    from_uc = command("from-uc")
+    try:
+        from biom.cli.uc_processor import _from_uc
+    except ImportError:       # helper renamed: the command route remains
+        _from_uc = None
     from biom import load_table
     text = uc_text(case)
     obs, samp, rows = uc_model(case)
     entry = case["entry"]
+    if _from_uc is None and entry in ("from_uc", "from_uc_map"):
+        entry = "cli"
     rec.cls("uc-entry:" + entry)
     rename = None
     if entry in ("from_uc_map", "cli"):
